@@ -108,6 +108,11 @@ def run(f, fixture, rep, cfg, tier):
                       "%s appears in %s and in %s: a package using both gets two index entries with the same tag" % (tag, name, dup))
             seen.setdefault(tag, name)
 
+    # ---- R9 tag numbers ---------------------------------------------------------------------------------------
+    rep.rule("R9", "tag numbers equal rpm's (rpmtag.h)")
+    from tagtable import check_tag_numbers
+    check_tag_numbers(f, rep, "R9")
+
     # ---- R3 alignment ---------------------------------------------------------------------------------
     ap = f.one("header::IndexData::append")
     ta = TermBuilder(ap)
